@@ -18,13 +18,20 @@ type T = (u64, u32);
 type Ent = TrioArc<ValueEntry<u8, Val>>;
 
 pub(crate) static mut NOW: T = (0, 0);
-/// 0: symbolic sketch contents; 1: concrete empty sketch; 2: concrete, key SKETCH_HOT recorded 3 times
+/// 0: symbolic sketch contents; 1: concrete empty sketch; 2: concrete, key SKETCH_HOT recorded 3 times;
+/// 3: sketch not enabled yet (unallocated)
 pub(crate) static mut SKETCH_MODE: u8 = 0;
 pub(crate) static mut SKETCH_HOT: u8 = 0;
 pub(crate) fn sketch_mode(m: u8, hot: u8) { unsafe { SKETCH_MODE = m; SKETCH_HOT = hot; } }
 pub(crate) fn now_stub() -> std::time::Instant {
     let t = unsafe { NOW };
     instant_at(t.0, t.1)
+}
+/// std's futex locks (and crossbeam's back-off) reach their spin hint only when the lock is CONTENDED; in
+/// these sequential executions the only possible holder is the calling thread itself, which then waits
+/// for ever. Stub of std::hint::spin_loop in every sync harness.
+pub(crate) fn spin_stub() {
+    assert!(false, "C09: sequential execution spins on a contended lock (only the calling thread itself can hold it: self-deadlock, the operation never returns)");
 }
 fn inst(t: T) -> Instant { Instant::new(instant_at(t.0, t.1)) }
 fn dur(t: T) -> Duration { Duration::new(t.0, t.1) }
@@ -62,7 +69,7 @@ pub(crate) struct SCfg {
 
 #[derive(Clone, Copy)]
 pub(crate) struct STc { pub now: T, pub ttl: T, pub tti: T, pub va: T, pub la: [T; MAXN], pub lm: [T; MAXN] }
-pub(crate) const STCS: [STc; 7] = [
+pub(crate) const STCS: [STc; 8] = [
     STc { now: (0, 0), ttl: (0, 0), tti: (0, 0), va: (0, 0), la: [(0, 0); MAXN], lm: [(0, 0); MAXN] },
     // 1: everything live; watermark older than every entry
     STc { now: (100, 0), ttl: (50, 5), tti: (30, 0), va: (10, 0), la: [(80, 0), (85, 0), (90, 0), (0, 0)], lm: [(60, 0), (70, 0), (80, 0), (0, 0)] },
@@ -76,6 +83,8 @@ pub(crate) const STCS: [STc; 7] = [
     STc { now: (100, 0), ttl: (50, 5), tti: (30, 0), va: (100, 0), la: [(99, 0), (100, 0), (100, 0), (0, 0)], lm: [(99, 0), (100, 0), (100, 0), (0, 0)] },
     // 6: key 0 expired by ttl, key 1 live (for purge)
     STc { now: (100, 0), ttl: (50, 0), tti: (40, 0), va: (10, 0), la: [(50, 0), (85, 0), (90, 0), (0, 0)], lm: [(40, 0), (70, 0), (80, 0), (0, 0)] },
+    // 7: invalidate_all just called (watermark == now); every resident was written strictly before it
+    STc { now: (100, 0), ttl: (50, 5), tti: (30, 0), va: (100, 0), la: [(98, 0), (99, 0), (99, 5), (0, 0)], lm: [(98, 0), (99, 0), (99, 5), (0, 0)] },
 ];
 
 /// ghost of the abstract state
@@ -197,6 +206,11 @@ pub(crate) fn sbuild(cfg: &SCfg) -> SSt {
     let (sk_words, sk_size) = sk::snapshot4(&sketch);
     *inner.frequency_sketch.write().expect("lock poisoned") = sketch;
     inner.frequency_sketch_enabled.store(true, Ordering::Release);
+    if unsafe { SKETCH_MODE } == 3 {
+        // the sketch has not been enabled yet (cache was under half full at the end of the last run)
+        *inner.frequency_sketch.write().expect("lock poisoned") = Default::default();
+        inner.frequency_sketch_enabled.store(false, Ordering::Release);
+    }
     if let Some(v) = va { inner.valid_after.set_instant(inst(v)); }
     let mut g = SG {
         present: [false; MAXN], admitted: [false; MAXN], dirty: [false; MAXN],
@@ -715,6 +729,7 @@ macro_rules! sh {
         #[kani::proof]
         #[kani::unwind(6)]
         #[kani::stub(std::time::Instant::now, now_stub)]
+        #[kani::stub(std::hint::spin_loop, spin_stub)]
         #[kani::stub(AtomicInstant::instant, crate::common::concurrent::atomic_time::verif_atomic_time::instant)]
         #[kani::stub(AtomicInstant::is_set, crate::common::concurrent::atomic_time::verif_atomic_time::is_set)]
         #[kani::stub(AtomicInstant::set_instant, crate::common::concurrent::atomic_time::verif_atomic_time::set_instant)]
@@ -789,6 +804,7 @@ fn l_upsert_update(cfg: &SCfg, j: usize) {
     assert!(counters.weighted_size == ws0.saturating_sub(old_w as u64).saturating_add(new_w as u64),
             "C10,C03,C04: an applied update must move weighted_size by exactly (new - old) of ITS OWN op");
     let e = st.ent[j].as_ref().unwrap();
+    assert!(inner.cache.get(&(j as u8)).is_some(), "C03,C01,C11: applying the update of an admitted entry must not drop it from the map (whatever its new weight: the excess is evicted from the LRU end afterwards)");
     assert!(!e.is_dirty() && e.is_admitted(), "C05,C06: applied update leaves the entry clean and admitted");
     assert!(e.last_accessed() == Some(inst(g.la[j])) && e.last_modified() == Some(inst(g.lm[j])),
             "C06,C05: maintenance must not move last_accessed / last_modified (deadlines run from the update, not from its late application)");
@@ -1056,6 +1072,11 @@ pub(crate) fn add_pending(st: &SSt, k: u8) -> Ent {
 }
 pub(crate) fn base_of(st: SSt) -> Bc { let SSt { b, g: _, ent, key } = st; std::mem::forget(ent); std::mem::forget(key); b }
 impl In {
+    pub(crate) fn verif_read_len(&self) -> usize { self.read_op_ch.len() }
+    /// (frequency sketch enabled flag, sketch still unallocated)
+    pub(crate) fn verif_sketch_state(&self) -> (bool, bool) {
+        (self.frequency_sketch_enabled.load(Ordering::Acquire), sk::is_empty(&self.frequency_sketch.read().expect("lock poisoned")))
+    }
     pub(crate) fn verif_recv_write(&self) -> Option<WriteOp<u8, Val>> { self.write_op_ch.try_recv().ok() }
 }
 
@@ -1288,8 +1309,11 @@ fn l_burst(cfg: &SCfg, mode: u8, hot: u8, ops: &[BOp]) {
     let mut latest: [Option<Val>; MAXN] = [None; MAXN];
     let mut i = 0;
     while i < n { latest[i] = Some(g.v[i]); i += 1; }
-    let mut live_w = g.ws;       // total weight of live entries (the model's), maximum over the burst
+    let mut live_w = g.ws;       // total weight of the model's live entries; maximum over the burst
     let mut max_live_w = g.ws;
+    // the write queue, kept by the harness in issue order (the FIFO of the real channel)
+    let mut q: [Option<WriteOp<u8, Val>>; QCAP] = [None, None, None, None];
+    let mut qn = 0usize;
     for op in ops {
         match *op {
             BOp::Ins(k, cls) => {
@@ -1306,14 +1330,12 @@ fn l_burst(cfg: &SCfg, mode: u8, hot: u8, ops: &[BOp]) {
                         crate::common::concurrent::entry_info::verif_entry_info::register_w(value_entry.entry_info(), k as usize, false, false, g.weigh(k as usize, v));
                     }
                 }
-                assert!(st.b.write_op_ch.try_send(wop).is_ok(), "VERIF-BOUND: model write queue full");
+                q[qn] = Some(wop); qn += 1;
             }
             BOp::Inv(k) => {
                 if let Some(o) = latest[k as usize] { live_w -= g.weigh(k as usize, o) as u64; }
                 latest[k as usize] = None;
-                if let Some(kv) = st.b.remove_entry(&k) {
-                    assert!(st.b.write_op_ch.try_send(WriteOp::Remove(kv)).is_ok(), "VERIF-BOUND: model write queue full");
-                }
+                if let Some(kv) = st.b.remove_entry(&k) { q[qn] = Some(WriteOp::Remove(kv)); qn += 1; }
             }
             BOp::Get(k) => {
                 let got = st.b.get_with_hash(&k, IdH::h(k));
@@ -1322,8 +1344,27 @@ fn l_burst(cfg: &SCfg, mode: u8, hot: u8, ops: &[BOp]) {
         }
     }
     kani::cover!(true, "inputs chosen");
-    inner.sync(MAX_SYNC_REPEATS_PUB);
-    assert!(st.b.read_op_ch.len() == 0 && st.b.write_op_ch.len() == 0, "C09: sync must drain both queues");
+    // one maintenance run, step by step as Inner::sync / apply_writes perform it (queue order, then the
+    // size eviction); the dispatch loops themselves are decided by l_sync_round_plain
+    let mut counters = EvictionCounters::new(g.ec, g.ws);
+    {
+        let mut deqs = inner.deques.lock().expect("lock poisoned");
+        let freq = inner.frequency_sketch.read().expect("lock poisoned");
+        let mut i = 0;
+        while i < QCAP {
+            match q[i].take() {
+                Some(WriteOp::Upsert { key_hash, value_entry, old_weight, new_weight }) =>
+                    inner.handle_upsert(key_hash, value_entry, old_weight, new_weight, &mut deqs, &freq, &mut counters),
+                Some(WriteOp::Remove(kv)) => In::handle_remove(&mut deqs, kv.entry, &mut counters),
+                None => {}
+            }
+            i += 1;
+        }
+        let w = inner.weights_to_evict(&counters);
+        if w > 0 { inner.evict_lru_entries(&mut deqs, 500, w, &mut counters); }
+    }
+    inner.entry_count.store(counters.entry_count);
+    inner.weighted_size.store(counters.weighted_size);
     let (_cnt, sum) = squiescent(inner, MAXN);
     let mut k = 0;
     while k < MAXN {
@@ -1336,14 +1377,13 @@ fn l_burst(cfg: &SCfg, mode: u8, hot: u8, ops: &[BOp]) {
             }
             None => {
                 // a loss is legitimate only if the live weight ever exceeded the capacity (rejection / eviction)
-                if let (Some(_), true) = (latest[k], match g.cap { None => true, Some(c) => max_live_w <= c }) {
-                    assert!(false, "C03: a live entry was dropped although the live weight never exceeded max_capacity");
-                }
+                let never_over = match g.cap { None => true, Some(c) => max_live_w <= c };
+                assert!(!(latest[k].is_some() && never_over), "C03: a live entry was dropped although the live weight never exceeded max_capacity");
             }
         }
         k += 1;
     }
-    if let Some(c) = g.cap { assert!(sum <= c || n == 0 && false || sum <= g.ws.max(c), "C04: resident weight above max_capacity after maintenance"); }
+    if let Some(c) = g.cap { assert!(sum <= c, "C04: resident weight above max_capacity after a whole maintenance run"); }
     kani::cover!(true, "end reached");
     std::mem::forget(st);
 }
@@ -1410,3 +1450,62 @@ shk!(c09_get_hit_releases_guard, c09_get_guard(&sc(1, Some(3), false, W1, true, 
 shk!(c09_get_expired_releases_guard, c09_get_guard(&sc(1, Some(3), false, W1, true, false, false, 2), 0));
 shk!(c09_get_invalidated_releases_guard, c09_get_guard(&sc(1, Some(3), false, W1, false, false, true, 4), 0));
 shk!(c09_get_miss_releases_guard, c09_get_guard(&sc(1, Some(3), false, W1, false, true, false, 1), 1));
+
+// ================================================================================================
+// C07 / C01: maintenance never makes an invalidated entry observable again. State: invalidate_all
+// was called at `now`; both residents were written before it (hidden); key 0 (the LRU one) was then
+// re-inserted (fresh timestamps, dirty, its deque nodes not yet moved: the Upsert is still queued).
+// evict_expired finds the fresh entry at the FRONT of both deques and must leave key 1 hidden.
+// ================================================================================================
+fn l_purge_fresh_front(cfg: &SCfg) {
+    let st = sbuild(cfg);
+    let inner = &*st.b.inner;
+    assert!(!st.b.contains_key(&0u8) && !st.b.contains_key(&1u8), "VERIF-BOUND: harness time class must hide both residents");
+    let nv = Val { cls: 0, data: kani::any() };
+    let (op, _) = st.b.do_insert_with_hash(Arc::new(0u8), IdH::h(0), nv);
+    assert!(st.b.contains_key(&0u8), "C07: a key re-inserted after invalidate_all must be retrievable at once");
+    let mut counters = EvictionCounters::new(st.g.ec, st.g.ws);
+    {
+        let mut deqs = inner.deques.lock().expect("lock poisoned");
+        inner.evict_expired(&mut deqs, 500, &mut counters);
+    }
+    assert!(!st.b.contains_key(&1u8), "C07,C01: an entry hidden by invalidate_all is observable again after maintenance");
+    assert!(st.b.get_with_hash(&1u8, IdH::h(1)).is_none(), "C07,C01: get returns an invalidated value after maintenance");
+    assert!(st.b.contains_key(&0u8), "C07,C03: the re-inserted key was removed or hidden by maintenance");
+    assert!(st.b.get_with_hash(&0u8, IdH::h(0)) == Some(nv), "C01,C07: the re-inserted key must return its new value");
+    kani::cover!(true, "end reached");
+    std::mem::forget(op);
+    std::mem::forget(st);
+}
+sh!(l_purge_fresh_front_keeps_watermark, l_purge_fresh_front(&sc(2, Some(9), false, W1, false, false, true, 7)));
+sh!(l_purge_fresh_front_keeps_watermark_ttl, l_purge_fresh_front(&sc(2, Some(9), false, W1, true, false, true, 7)));
+
+// ================================================================================================
+// C09 / C13: admission while the popularity sketch is not enabled yet (one batch takes a bounded cache
+// from under half full to full): every estimate is 0, the candidate is rejected, and the step returns
+// (it must not wait for a lock its own caller holds: apply_writes holds the sketch's read lock).
+// ================================================================================================
+fn l_upsert_admission_nosketch() {
+    sketch_mode(3, 0);
+    let st = sbuild(&sc(1, Some(1), false, W1, false, false, false, 1));
+    let g = st.g;
+    let inner = &*st.b.inner;
+    let k = Arc::new(1u8);
+    let info = TrioArc::new(EntryInfo::new(inst(g.now), 1));
+    crate::common::concurrent::entry_info::verif_entry_info::register_w(&info, 1, false, true, 1);
+    let ent: Ent = TrioArc::new(ValueEntry::new(Val { cls: 0, data: kani::any() }, info));
+    inner.cache.insert(Arc::clone(&k), TrioArc::clone(&ent));
+    let mut counters = EvictionCounters::new(g.ec, g.ws);
+    kani::cover!(true, "inputs chosen");
+    {
+        let mut deqs = inner.deques.lock().expect("lock poisoned");
+        let freq = inner.frequency_sketch.read().expect("lock poisoned");
+        inner.handle_upsert(KeyHash::new(Arc::clone(&k), IdH::h(1)), TrioArc::clone(&ent), 0, 1, &mut deqs, &freq, &mut counters);
+    }
+    assert!(inner.cache.get(&1u8).is_none() && inner.cache.get(&0u8).is_some(), "C13: with no popularity recorded a newcomer must not displace a resident");
+    assert!(counters.entry_count == g.ec && counters.weighted_size == g.ws, "C10: rejection changes nothing");
+    kani::cover!(true, "end reached");
+    std::mem::forget(ent);
+    std::mem::forget(st);
+}
+sh!(l_upsert_admission_before_sketch_is_enabled, l_upsert_admission_nosketch());
